@@ -102,7 +102,7 @@ package limit
 //@ func (*Discipline).pass
 //@   requires [*] WF(dsc)
 //@   ensures [*] WF(dsc)
-//@   requires [*] gBatch == 0
+//@   requires [* C04] gBatch == 0
 //@   requires [C12] gInN == gOutN && !gClosed
 //@   requires [C04] PACE(dsc)
 //@   modifies gIn, gInN, gOutN, gClosed, gBatch, gClock
@@ -120,7 +120,7 @@ package limit
 //@ func (*Discipline).transfer
 //@   requires [*] WF(dsc)
 //@   ensures [*] WF(dsc)
-//@   requires [*] gBatch == 0
+//@   requires [* C04] gBatch == 0
 //@   requires [C12] gInN == gOutN && !gClosed
 //@   requires [C04] PACE(dsc)
 //@   modifies gIn, gInN, gOutN, gClosed, gBatch, gClock
@@ -141,20 +141,20 @@ package limit
 
 //@ func (*Discipline).loop
 //@   requires [*] WF(dsc)
-//@   requires [*] gBatch == 0
+//@   requires [* C04] gBatch == 0
 //@   requires [C12] gInN == gOutN && !gClosed
 //@   requires [C04] PACE(dsc)
 //@   modifies gIn, gInN, gOutN, gClosed, gBatch, gClock, gK
 //@   ensures [C12] gClosed && gInN == gOutN
 //@   loop 0
 //@     invariant [*] WF(dsc)
-//@     invariant [*] gBatch == 0
+//@     invariant [* C04] a-new-batch-starts-empty: gBatch == 0
 //@     invariant [C12] gInN == gOutN && !gClosed
 //@     invariant [C04] PACE(dsc)
 
 //@ func (*Discipline).main
 //@   requires [*] WF(dsc)
-//@   requires [*] gBatch == 0
+//@   requires [* C04] gBatch == 0
 //@   requires [C12] gInN == gOutN && !gClosed
 //@   requires [C04] PACE(dsc)
 //@   modifies gIn, gInN, gOutN, gClosed, gBatch, gClock, gK
